@@ -4,8 +4,77 @@ from .state import Unsupported
 from .vtypes import Val
 
 
+def snapshot(I, st):
+    st.suspend_heap = dict(st.heap)
+    st.suspend_ghost = dict(st.ghost)
+    st.suspensions = getattr(st, "suspensions", 0) + 1
+    st._snap_taken = True
+
+
+def suspend(I, st, node=None):
+    """a suspension point: other tasks run.  The heap snapshot is kept for at_suspend(); the rely of the function under
+    verification says what the others may have changed (DESIGN 3.4)."""
+    if not getattr(st, "_snap_taken", False):
+        snapshot(I, st)
+    st._snap_taken = False
+    c = I.current_contract
+    if c is None:
+        return
+    from . import calls, specs
+    fr = st.frames[0]
+    env = dict(fr.entry_vars)
+    if c.rely_havoc:
+        locs = calls.modifies_locations(I, st, c, env, c.rely_havoc)
+        calls.havoc_locations(I, st, locs)
+    if c.rely:
+        saved = (st.old_heap, st.old_alloc)
+        st.old_heap, st.old_alloc = st.suspend_heap, st.alloc
+        try:
+            for cl in c.rely:
+                st.assume(specs.eval_clause(I, st, cl, env, fr.func))
+        finally:
+            st.old_heap, st.old_alloc = saved
+    if c.cancellable:
+        if st.choose(2, "cancelled at suspension") == 1:
+            from .state import RaiseExc, ExcVal
+            raise RaiseExc(ExcVal("CancelledError", True), where=getattr(node, "lineno", None))
+
+
 def eval_await(I, st, node):
-    raise Unsupported("await (line %s)" % getattr(node, "lineno", "?"))
+    from . import calls
+    v = I.eval(st, node.value)
+    return await_value(I, st, v, node)
+
+
+def await_value(I, st, v, node):
+    from . import calls
+    if v.ty == "Coro":
+        fi, argmap = v.term
+        c = I.db.get(fi.qualname)
+        r = calls.invoke(I, st, fi, None, None, node, c, argmap=argmap)
+        if c is not None and not c.inline and c.may_suspend and not (I.current_target == fi.qualname and st.depth == 0):
+            suspend(I, st, node)
+        return r
+    if v.ty == "Awaitable":
+        kind = v.term[0]
+        if kind == "sleep":
+            d = v.term[1]
+            dt_ = I.to_real(d)
+            snapshot(I, st)
+            st.ghost["SLEPT"] = Val("Real", st.ghost["SLEPT"].term + dt_)
+            for which in ("time",):
+                prev = clock_value(I, st, which)
+                t = st.fresh(z3.RealSort(), "after_sleep")
+                st.assume(t >= prev.term + dt_)
+                st.ghost["$clock_" + which] = Val("Real", t)
+            prev = clock_value(I, st, "utc")
+            t = st.fresh(z3.IntSort(), "utc_after_sleep")
+            st.assume(z3.ToReal(t) >= z3.ToReal(prev.term) + dt_ * 1000000)
+            st.ghost["$clock_utc"] = Val("DT", t)
+            suspend(I, st, node)
+            from .vtypes import NONE
+            return NONE
+    raise Unsupported("await of %s (line %s)" % (v.ty, getattr(node, "lineno", "?")))
 
 
 def call_opaque(I, st, fv, args, kwargs, node):
@@ -17,15 +86,33 @@ def call_any_method(I, st, meth, obj, args, kwargs, node):
 
 
 def call_external(I, st, dotted, args, kwargs, node):
+    if dotted == "asyncio.sleep":
+        return Val("Awaitable", ("sleep", args[0]))
     raise Unsupported("external call %s (line %s)" % (dotted, getattr(node, "lineno", "?")))
+
+
+def clock_value(I, st, which, old=False):
+    """current value of the ghost clock `which` ('time' = time.time(), 'utc' = dt.utc_now())"""
+    sort = z3.RealSort() if which == "time" else z3.IntSort()
+    c0 = z3.Const("clock0_" + which, sort)
+    if old:
+        return Val("Real" if which == "time" else "DT", c0)
+    cur = st.ghost.get("$clock_" + which)
+    if cur is None:
+        cur = Val("Real" if which == "time" else "DT", c0)
+        st.ghost["$clock_" + which] = cur
+    return cur
 
 
 def clock_read(I, st, which):
     """time.time(): a monotone ghost clock (assumption: time.time() never goes backwards)"""
-    prev = st.ghost.get("$clock_" + which)
-    t = st.fresh(z3.RealSort(), "now")
-    if prev is not None:
-        st.assume(t >= prev.term)
+    prev = clock_value(I, st, which)
+    t = st.fresh(z3.RealSort() if which == "time" else z3.IntSort(), "now")
+    st.assume(t >= prev.term)
+    if which != "time":
+        v = Val("DT", t)
+        st.ghost["$clock_" + which] = v
+        return v
     v = Val("Real", t)
     st.ghost["$clock_" + which] = v
     st.clock_reads = getattr(st, "clock_reads", []) + [t]
